@@ -24,6 +24,11 @@ pub(super) struct Stream {
     /// Current state of the stream
     pub state: State,
 
+    /// Unique serial number of this record (verification hook; identifies a record in events even
+    /// when two records carry the same stream id).
+    #[cfg(feature = "verif-hooks")]
+    pub verif_serial: i64,
+
     /// Set to `true` when the stream is counted against the connection's max
     /// concurrent streams.
     pub is_counted: bool,
@@ -145,8 +150,11 @@ pub(super) struct NextResetExpire;
 impl Stream {
     pub fn new(id: StreamId, init_send_window: WindowSize, init_recv_window: WindowSize) -> Stream {
         #[cfg(feature = "verif-hooks")]
+        let verif_serial = crate::verif::next_serial();
+        #[cfg(feature = "verif-hooks")]
         crate::verif::ev("stream.new", || {
             vec![
+                verif_serial,
                 u32::from(id) as i64,
                 init_send_window as i64,
                 init_recv_window as i64,
@@ -169,6 +177,8 @@ impl Stream {
         Stream {
             id,
             state: State::default(),
+            #[cfg(feature = "verif-hooks")]
+            verif_serial,
             ref_count: 0,
             is_counted: false,
 
@@ -338,7 +348,9 @@ impl Stream {
     /// then consider waking the send task again...
     pub fn notify_capacity(&mut self) {
         #[cfg(feature = "verif-hooks")]
-        crate::verif::ev("stream.notify_capacity", || vec![u32::from(self.id) as i64]);
+        crate::verif::ev("stream.notify_capacity", || {
+            vec![self.verif_serial, u32::from(self.id) as i64]
+        });
         self.send_capacity_inc = true;
         tracing::trace!("  notifying task");
         self.notify_send();
@@ -373,7 +385,11 @@ impl Stream {
     pub fn notify_send(&mut self) {
         #[cfg(feature = "verif-hooks")]
         crate::verif::ev("stream.notify_send", || {
-            vec![u32::from(self.id) as i64, self.send_task.is_some() as i64]
+            vec![
+                self.verif_serial,
+                u32::from(self.id) as i64,
+                self.send_task.is_some() as i64,
+            ]
         });
         if let Some(task) = self.send_task.take() {
             task.wake();
@@ -382,7 +398,9 @@ impl Stream {
 
     pub fn wait_send(&mut self, cx: &Context) {
         #[cfg(feature = "verif-hooks")]
-        crate::verif::ev("stream.wait_send", || vec![u32::from(self.id) as i64]);
+        crate::verif::ev("stream.wait_send", || {
+            vec![self.verif_serial, u32::from(self.id) as i64]
+        });
         self.send_task = Some(cx.waker().clone());
     }
 
